@@ -46,6 +46,11 @@ impl ConfigKey {
                 return Err(ConfigKeyValidationError::InvalidChar { key, invalid: c });
             }
         }
+        // The key becomes the name of a field in the generated `ApplicationConfig`:
+        // Rust keywords satisfy the character rules above, but they aren't valid identifiers.
+        if syn::parse_str::<syn::Ident>(&key).is_err() {
+            return Err(ConfigKeyValidationError::ReservedKeyword { key });
+        }
         Ok(Self(key))
     }
 
@@ -110,4 +115,9 @@ pub(crate) enum ConfigKeyValidationError {
         `{key}` contains `{invalid}` which is not a letter, digit, or underscore."
     )]
     InvalidChar { key: String, invalid: char },
+    #[error(
+        "Configuration keys must be valid Rust identifiers.\n\
+        `{key}` is a reserved keyword."
+    )]
+    ReservedKeyword { key: String },
 }
